@@ -301,7 +301,55 @@ func rollingSpecs(full bool) []v1.ExtendedDaemonSetSpecStrategy {
 
 // c16reconcile drives both reconcilers through a first deployment, a canary with a restarting pod and
 // a later moment, with the given spec; any panic is a violation.
+// c16lateEdit: the object is first deployed with an unobjectionable strategy; then the user replaces ONLY spec.strategy by
+// the lattice value (the template and hence the replica set stay). Validation is not a one-time gate: a reconcile of the
+// edited object reports an error exactly when validation rejects the (defaulted) spec.
+func c16lateEdit(t *testing.T, run *h.Run, spec *v1.ExtendedDaemonSetSpec, mode v1.ExtendedDaemonSetSpecStrategyCanaryValidationMode) {
+	eds := w.MkEDS("ns", "foo", w.Tpl("A"))
+	s := w.NewState(0, append(w.Nodes("n1"), eds)...)
+	w.InBubble(t, 0, func() {
+		l := w.NewLive(s, w.Config{DefaultValidationMode: mode})
+		ctx := context.Background()
+		in := l.API.Inner()
+		for i := 0; i < 4; i++ {
+			l.ReconcileEDS("ns", "foo")
+			erss := &v1.ExtendedDaemonSetReplicaSetList{}
+			_ = in.List(ctx, erss)
+			for _, r := range erss.Items {
+				l.ReconcileERS(r.Namespace, r.Name)
+			}
+			time.Sleep(11 * time.Second)
+		}
+		e := &v1.ExtendedDaemonSet{}
+		if err := in.Get(ctx, types.NamespacedName{Namespace: "ns", Name: "foo"}, e); err != nil {
+			return
+		}
+		e.Spec.Strategy = *spec.Strategy.DeepCopy()
+		_ = in.Update(ctx, e)
+		var last w.ReconcileResult
+		for i := 0; i < 3; i++ { // defaulting, then the reconciles of the defaulted object
+			last = l.ReconcileEDS("ns", "foo")
+			if last.Panic != nil {
+				run.Violate(h.Violation{Signature: fmt.Sprintf("C16/panic: R_eds(strategy edited later) %v at %s", last.Panic, last.PanicSite), Monitor: "C16/reconcile",
+					Message: fmt.Sprint(last.Panic), Replay: map[string]interface{}{"spec": c16describe(spec), "defaultMode": mode, "history": "deployed with the default strategy, then spec.strategy replaced"}})
+				return
+			}
+		}
+		_ = in.Get(ctx, types.NamespacedName{Namespace: "ns", Name: "foo"}, e)
+		want := v1.ValidateExtendedDaemonSetSpec(&e.Spec)
+		run.Count("late_edits", 1)
+		if want != nil {
+			run.Count("antecedent:C16/late-edit-invalid", 1)
+		}
+		if (want != nil) != (last.Err != nil) && v1.IsDefaultedExtendedDaemonSet(e) {
+			run.Violate(h.Violation{Signature: "C16/validate-late: after a strategy-only edit of a deployed object the reconcile and validation disagree (validation is skipped or spurious)", Monitor: "C16/reconcile",
+				Message: fmt.Sprintf("validation: %v; reconcile: %v", want, last.Err), Replay: map[string]interface{}{"spec": c16describe(spec), "defaultMode": mode, "history": "deployed with the default strategy, then spec.strategy replaced"}})
+		}
+	})
+}
+
 func c16reconcile(t *testing.T, run *h.Run, spec *v1.ExtendedDaemonSetSpec, mode v1.ExtendedDaemonSetSpecStrategyCanaryValidationMode) {
+	c16lateEdit(t, run, spec, mode)
 	c16reconcileVariant(t, run, spec, mode, false)
 	if spec.Strategy.Canary != nil {
 		c16reconcileVariant(t, run, spec, mode, true)
@@ -498,6 +546,7 @@ func TestC16(t *testing.T) {
 	}
 	close(work)
 	wg.Wait()
+	requireAntecedents(run, "C16/late-edit-invalid")
 	evals = run.Counter("pure_evaluations") + run.Counter("reconcile_specs")
 	run.Cov["evaluations"] = evals
 	run.Cov["states"] = evals
